@@ -120,6 +120,18 @@ func main() {
 			runKcCase(c)
 			emit(c)
 		}
+	case "eval":
+		mode := "stmt"
+		if *filter != "" {
+			mode = *filter
+		}
+		for i := lo; i < hi; i++ {
+			r := newRng(*seed*1000003 + uint64(i))
+			c, h := genEvalCase(r, i, mode)
+			begin(c)
+			runEvalCase(c, h)
+			emit(c)
+		}
 	default:
 		fmt.Fprintf(os.Stderr, "unknown scenario %s\n", *scn)
 		os.Exit(2)
